@@ -517,8 +517,7 @@ func GenConcStress(out string, seed int64, n int, kind string, clients, ops int,
 			cs.Init = Value{V: codeMap, Sub: []Entry{{P: []int{1}, V: codeGate}, {P: []int{2}, V: 1}, {P: []int{3}, V: codeMap},
 				{P: []int{3, 1}, V: codeMap}, {P: []int{3, 1, 1}, V: codeGate}, {P: []int{3, 1, 2}, V: 1},
 				{P: []int{3, 1, 3}, V: codeMap}, {P: []int{3, 1, 3, 1}, V: codeGate}, {P: []int{3, 1, 3, 2}, V: 1}}}
-			// never bind "nodes" or "nodes.<id>" to a non-map: Instance.Schema type-asserts them
-			paths = [][]int{{2}, {1}, {3, 1, 2}, {3, 1, 3, 2}, {3, 1, 3, 3}, {3, 2}, {2, 2}, {3, 1, 3}}
+			paths = [][]int{{2}, {1}, {3, 1, 2}, {3, 1, 3, 2}, {3, 1, 3, 3}, {3, 2}, {2, 2}, {3, 1, 3}, {3, 1, 2}, {3, 1, 3, 2}, {3, 1}, {3}}
 			readers = []ConcOp{{Op: "save", P: []int{}}, {Op: "schema", P: []int{3, 1}}}
 		} else {
 			cs.Init = Value{V: codeMap, Sub: []Entry{{P: []int{1}, V: codeGate}, {P: []int{2}, V: codeMap}, {P: []int{2, 1}, V: codeGate},
@@ -526,7 +525,10 @@ func GenConcStress(out string, seed int64, n int, kind string, clients, ops int,
 			paths = [][]int{{3}, {1}, {2, 2}, {2, 3, 2}, {2, 3, 3}, {2, 3}, {3, 1}, {2}, {2, 2, 1}}
 			readers = []ConcOp{{Op: "data", P: []int{}}, {Op: "getm", P: []int{2}}, {Op: "getm", P: []int{2, 3}}}
 		}
-		nc := 2 + r.Intn(clients-1)
+		nc := 1
+		if clients > 1 {
+			nc = 2 + r.Intn(clients-1)
+		}
 		val := 2
 		for c := 0; c < nc; c++ {
 			prog := []ConcOp{}
@@ -540,14 +542,15 @@ func GenConcStress(out string, seed int64, n int, kind string, clients, ops int,
 					if r.Intn(5) == 0 && len(p) >= 2 && kind == "map" || (len(p) == 4 && r.Intn(3) == 0) {
 						v = Value{V: codeMap, Sub: []Entry{{P: []int{1}, V: codeGate}, {P: []int{2}, V: val%7 + 2}}}
 					}
-					if len(p) == 3 && p[2] == 3 && kind == "app" { // nodes.<id>.nodes stays a map
+					if kind == "app" && (len(p) == 3 && p[2] == 3 || len(p) <= 2 && p[0] == 3 && r.Intn(3) > 0) {
+						// nodes, nodes.<id>, nodes.<id>.nodes are usually objects (sometimes a leaf: Schema must cope)
 						v = Value{V: codeMap, Sub: []Entry{{P: []int{1}, V: codeGate}, {P: []int{2}, V: val%7 + 2}}}
+						if len(p) == 1 {
+							v = Value{V: codeMap, Sub: []Entry{{P: []int{1}, V: codeMap}, {P: []int{1, 1}, V: codeGate}, {P: []int{1, 2}, V: val%7 + 2}}}
+						}
 					}
 					prog = append(prog, ConcOp{Op: "set", P: p, Val: v})
 				case x < 6:
-					if kind == "app" && len(p) == 1 && p[0] == 3 {
-						p = []int{2}
-					}
 					prog = append(prog, ConcOp{Op: "del", P: p, Val: leaf(codeNil)})
 				case x < 10 || kind == "app":
 					o := readers[r.Intn(len(readers))]
